@@ -13,6 +13,9 @@ Model of the standard atomic metric storage and of the handle layer
       GaugeFn::decrement    = fetch_update(|c| Some((from_bits(c) - v).to_bits()))    linearizable RMW)
       GaugeFn::set          = swap
 
+    (`Model/AtomicsCas.lean`, round 4, runs the two `fetch_update`s as the load + compare-exchange loop they are
+    and `C04.cas_refines_rmw` proves that machine refines this one.)
+
     Which updates are a single RMW is a parameter (`Shape`), instantiated from the source by the translator
     (`Generated/SourceFacts.lean`).  Where the shape says "not one RMW" the machine executes the update as
     `load; store` in two steps (the *split* variant) — on which the exactly-once theorems are false
